@@ -435,6 +435,15 @@ def fixup_ast_from_modifications(transformed_ast: ast.AST, original_ast: ast.Cal
     return fixer.redone_ast
 
 
+def _not_optional(t: Any) -> Any:
+    "`Optional[X]` is an `X` as far as its methods, call-backs and type arguments go"
+    if get_origin(t) is Union:
+        not_none = [a for a in get_args(t) if a is not type(None)]
+        if len(not_none) == 1:
+            return not_none[0]
+    return t
+
+
 @dataclass
 class _MethodObjectCandidate:
     """Candidate object for a particular call"""
@@ -838,7 +847,7 @@ def remap_by_types(
             assert isinstance(t_node, ast.Call)
             if isinstance(t_node.func, ast.Attribute):
                 # Do we know the type of the value?
-                found_type = self.lookup_type(t_node.func.value)
+                found_type = _not_optional(self.lookup_type(t_node.func.value))
                 if found_type is not None:
                     t_node = self.process_method_call(t_node, found_type)
             elif isinstance(t_node.func, ast.Name):
@@ -846,7 +855,7 @@ def remap_by_types(
                     t_node = self.process_function_call(t_node, _global_functions[t_node.func.id])
             elif isinstance(t_node.func, ast.Subscript):
                 if isinstance(t_node.func.value, ast.Attribute):
-                    found_type = self.lookup_type(t_node.func.value.value)
+                    found_type = _not_optional(self.lookup_type(t_node.func.value.value))
                     if found_type is not None and found_type is not Any:
                         t_node = self.process_parameterized_method_call(
                             t_node,
